@@ -104,6 +104,10 @@ def build_fs(args):
         flat += [k] * v
     rng.shuffle(flat)
     text = f"Decay {mother}\n  1.0 {' '.join(flat)} PHSP;\nEnddecay\nCDecay {mbar}\n"
+    if cid % 4 == 0:
+        # the statement given once more (as when a user file repeats what the main file says): whatever else that does
+        # (the table is then listed twice - an observation, section 4), the table found under the name is the conjugate
+        text += f"CDecay {mbar}\n"
     p, err, _ = decio.parse_text(text)
     if p is None:
         raise Machinery(f"C04 table text does not parse: {err!r}\n{text}")
